@@ -207,6 +207,13 @@ func (r *Rng) strBytes(maxLen int) []byte {
 	case 2:
 		n = 1
 	}
+	if r.Intn(16) == 0 { // the longest presentation form: maxLen octets that all need a \DDD escape
+		b := make([]byte, maxLen)
+		for i := range b {
+			b[i] = []byte{0xff, 0x00, 0x80, 0x1f, 0x7f}[r.Intn(5)]
+		}
+		return b
+	}
 	b := make([]byte, n)
 	plain := "abcXYZ019 -_./:"
 	mode := r.Intn(3)
